@@ -51,7 +51,7 @@ RULE = (
     "a case is one call make_matching_sequence(required, *patterns, depth_limit, symbol_priority). Strata: (single) EVERY "
     "syntax tree with 1..4 nodes (quick) / 1..5 (thorough) over leaves {a, b, c, '.'} rendered to text, every 4th also with "
     "a trailing ' $', x EVERY required list of length 0..3 over {a, b, c} x depth_limit {0, 1, 3}, and for patterns with a wildcard and "
-    "depth_limit > 0 also with symbol_priority [c, a] (thorough also [p, b]) - exhaustive; (nested) EVERY pattern (inner)op tail whose inner group starts or ends with a repetition (960 patterns of 5-8 nodes) x every required list of length 0..3 (thorough 0..4) x depth_limit {0, 1, 3} - exhaustive; (pairs) VERIF_SEED-sampled sets of two such patterns (<= 4 nodes "
+    "depth_limit > 0 also with symbol_priority [c, a] (thorough also [p, b]) - exhaustive; (nested) EVERY pattern (inner)op tail whose inner group starts or ends with a repetition (960 patterns of 5-8 nodes) x every required list of length 0..3 (thorough 0..4) x depth_limit {0, 1, 3} - exhaustive; (looppairs) EVERY (loop pattern, concrete chain of length 2..4, required subsequence of length <= 2) in both pattern orders x depth_limit {0, 3} - exhaustive; (pairs) VERIF_SEED-sampled sets of two such patterns (<= 4 nodes "
     "each; thorough <= 5) with a random required list, depth limit and priority - sampled; (shape) EVERY union of two symbol chains of "
     "1..2 and 1..4 (thorough 1..5) symbols over {a, b, c} x every required list of length 0..2 (thorough 0..3) x depth "
     "{0, 1, 3} - exhaustive, the shape in which consuming a required symbol "
@@ -145,6 +145,33 @@ def _nested_pool():
     return out
 
 
+def _looppair_cases():
+    """(required, [loop, chain]): a pattern that keeps returning to the same matcher state set, listed BEFORE a concrete
+    chain that narrows the candidates differently at each visit (whatever is remembered per state set between visits,
+    or shared between the two matchers, goes wrong here).  Exhaustive over 5 loops x every chain of length 2..4 over
+    {a, b, c} x every non-empty subsequence of the chain of length <= 2, in both pattern orders."""
+    loops = ["(a | b)*", "(a | b | c)*", "(a | b)+ c?", "((a | b) c?)*", "(. )*", "(s (a | b))*"]
+    out = []
+    for loop in loops:
+        for L in (2, 3, 4):
+            for chain in itertools.product("abc", repeat=L):
+                seq = list(chain)
+                if loop.startswith("(s"):
+                    if "c" in seq:
+                        continue
+                    seq = [x for y in seq for x in ("s", y)]
+                text = " ".join(seq)
+                reqs = set()
+                for i in range(len(chain)):
+                    reqs.add((chain[i],))
+                    for j in range(i + 1, len(chain)):
+                        reqs.add((chain[i], chain[j]))
+                for req in sorted(reqs):
+                    out.append((list(req), [loop, text]))
+                    out.append((list(req), [text, loop]))
+    return out
+
+
 def _real_picture_lists(max_pics, groups):
     out = [[]]
     for n in range(1, max_pics + 1):
@@ -198,6 +225,9 @@ def plan(tier, seed):
     conv = _converge_pool()
     for i in range(0, len(conv), 48):
         cases.append({"kind": "converge", "lo": i, "hi": min(len(conv), i + 48), "w": 48 * 4 * 3.0})
+    lp = _looppair_cases()
+    for i in range(0, len(lp), 400):
+        cases.append({"kind": "looppairs", "lo": i, "hi": min(len(lp), i + 400), "w": 400 * 2 * 3.0})
     nested = _nested_pool()
     for i in range(0, len(nested), 24):
         cases.append({"kind": "nested", "req": 3 if tier == "quick" else 4, "lo": i, "hi": min(len(nested), i + 24), "w": 24 * 40 * 3 * 2.0})
@@ -394,6 +424,13 @@ def _run_case(case, ctx):
                 for d in DEPTHS:
                     _judge(ctx, req, [pool[i]], d, [], "shape")
         ctx.sample({"stratum": "shape", "pattern": pool[case["lo"]], "required": "every list of length 0..%d over a,b,c" % case["req"], "depth_limit": DEPTHS})
+    elif kind == "looppairs":
+        pool = _looppair_cases()
+        for req, pats in pool[case["lo"] : case["hi"]]:
+            ctx.count("looppair_cases")
+            for d in (0, 3):
+                _judge(ctx, req, pats, d, [], "looppairs")
+        ctx.sample({"stratum": "looppairs", "first": pool[case["lo"]], "depth_limit": [0, 3]})
     elif kind == "nested":
         pool = _nested_pool()
         reqs = _required_lists(case["req"])
@@ -452,6 +489,8 @@ def floor(agg, tier):
         miss.append("single stratum incomplete: %d of %d patterns" % (c.get("single_patterns", 0), exp_single))
     if c.get("converge_patterns", 0) != len(_converge_pool()):
         miss.append("converge stratum incomplete: %d of %d patterns" % (c.get("converge_patterns", 0), len(_converge_pool())))
+    if c.get("looppair_cases", 0) != len(_looppair_cases()):
+        miss.append("loop-pair stratum incomplete: %d of %d cases" % (c.get("looppair_cases", 0), len(_looppair_cases())))
     if c.get("nested_patterns", 0) != len(_nested_pool()):
         miss.append("nested stratum incomplete: %d of %d patterns" % (c.get("nested_patterns", 0), len(_nested_pool())))
     exp_shape = len(_shape_pool(p["shape_long"]))
